@@ -206,6 +206,8 @@ def ent_desc(only=None):
             ).map(list), max_size=3),
             'hidden': st.sampled_from([False, False, False, True]),
             'solids': st.lists(prism(), min_size=1, max_size=2) if is_brush else st.just([]),
+            # the origin written with a $variable: whole ("$pvec") or one component ("64 $pnum 8")
+            'origin_var': st.sampled_from([None, None, None, 'whole', 'component']),
         })
     if only is not None:
         return for_class(only)
@@ -257,6 +259,7 @@ def op():
         'fixval': st.lists(st.sampled_from(['door1', 'x', '5', 'Relay_A', 'q q', '']), min_size=len(VAR_POOL), max_size=len(VAR_POOL)),
         'via_text': st.booleans(),
         'same_as_prev': st.booleans(),     # repeat the previous collapse's template / name / style / fixups at this placement
+        'pvec': vec3(512), 'pnum': coord(512),
     })
 
 
@@ -303,6 +306,10 @@ def build_template(tdesc):
     pending_sidelists = []
     for e in tdesc['ents']:
         keys = {'classname': e['cls'], 'origin': fmt_vec(e['origin']), 'angles': fmt_vec(e['angles'])}
+        if e.get('origin_var') == 'whole':
+            keys['origin'] = '$pvec'
+        elif e.get('origin_var') == 'component':
+            keys['origin'] = f'{fmt_vec(e["origin"][:1])} $pnum {fmt_vec(e["origin"][2:])}'
         if e['name']:
             keys['targetname'] = e['name']
         ent = Entity(vmf, keys=keys)
@@ -512,6 +519,13 @@ def check_collapse(ctx, tsnap, new_brushes, new_ents, op_, table, R, T, node_see
                 face_map[os_['id']] = ns.id
                 check_side(ctx, os_, ns, R, T, f'entity {ei} brush {bi} side {si}')
         ctx.check(len(oe['solids']) == len(ne.solids), 'counts', f'entity {ei}: solid count differs')
+        for bi, (ob, nb) in enumerate(zip(oe['solids'], ne.solids)):
+            # a brush that is individually hidden inside the instance file must not become visible geometry
+            ctx.check(bool(nb.hidden or not nb.vis_shown) == bool(ob['hidden']), 'visibility',
+                      f'entity {ei} brush {bi}: hidden in the template = {ob["hidden"]}, hidden after the collapse = '
+                      f'{bool(nb.hidden or not nb.vis_shown)}')
+            if ob['hidden']:
+                ctx.label('hidden_solid_in_visible_entity')
     node_map = {}
     for ei, (oe, ne) in enumerate(zip(vis_ents, new_ents)):
         okeys = {k.casefold(): v for k, v in oe['keys']}
@@ -535,7 +549,9 @@ def check_collapse(ctx, tsnap, new_brushes, new_ents, op_, table, R, T, node_see
                 ctx.check(nval == oval, 'unknown_key_copied',
                           f'{w}: a keyvalue the engine database does not know was altered by the collapse: {oval!r} -> {nval!r}')
             elif kind == 'pos':
-                want = rm.transform(parse_vec(oval), R, T)
+                if '$' in oval:
+                    ctx.label('origin_with_variable')
+                want = rm.transform(parse_vec(ref_substitute(oval, table)), R, T)
                 try:
                     got = parse_vec(nval)
                 except ValueError:
@@ -628,6 +644,9 @@ def execute(desc, ctx):
         used[ti] = used.get(ti, 0) + 1
         fix = [FixupValue(var, val, i + 1) for i, (var, val) in enumerate(zip(VAR_POOL, op_['fixval']))]
         table = {var.casefold(): val for var, val in zip(VAR_POOL, op_['fixval'])}
+        for var, val in (('pvec', fmt_vec(op_.get('pvec', [0, 0, 0]))), ('pnum', fmt_vec([op_.get('pnum', 0.0)]))):
+            fix.append(FixupValue(var, val, len(fix) + 1))
+            table[var] = val
         inst = Instance(op_['name'], 'inst.vmf', Vec(*op_['pos']), Matrix.from_angle(Angle(*op_['ang'])),
                         FixupStyle(op_['style']), (), fix)
         R = rm.mat_from_angle(*op_['ang'])
@@ -825,7 +844,8 @@ def _has_cycle(desc) -> bool:
 SUBCHECKS = [
     Sub('collapse_one', execute, strategy=strategy, quick=800, quick_shards=8, thorough=60000, floor=30,
         must_hit=('arbitrary_rotation', 'repeat_collapse', 'nested_instance_with_fixups', 'displacement',
-                  'unknown_key_collapsed_twice', 'reset_warnings', 'sidelist_before_later_brush_entity')),
+                  'unknown_key_collapsed_twice', 'reset_warnings', 'sidelist_before_later_brush_entity',
+                  'hidden_solid_in_visible_entity', 'origin_with_variable')),
     Sub('collapse_all', execute_all, strategy=graph_strategy, quick=600, thorough=30000, floor=20,
         must_hit=('cyclic_graph', 'cyclic_mixed_case_classname', 'finishes', 'exceeds_limit')),
 ]
